@@ -110,6 +110,16 @@ theorem desugar_equiv_partial (p : Program) (hl : LayersOk p) (hd : DefaultsAgre
     | cons c cs ih => simp only [runMain, h, ih]
   rw [this]
 
+/-- **`before` extraction** (port of `sema/before_extractor.go`): from source-level post-conditions (no
+synthetic variables) it produces post-conditions that refer only to the before-variables it declares, so
+the `LayerWf` half of `LayersOk` always holds for checked programs; the remaining hypothesis of
+`desugar_equiv_partial` is that before statements cannot fault. -/
+theorem before_extraction_wf (c : Conds) (h : ∀ d ∈ c.post, srcC d = true) : LayerWf (rewrite c) :=
+  rewrite_wf c h
+
+example : (rewrite ⟨[], [.test (.eq (.before (.add (.before .a) .x)) (.before .y))]⟩) =
+    ⟨[.a, .add (.bvar 0) .x, .y], [], [.test (.eq (.bvar 1) (.bvar 2))]⟩ := by decide
+
 /-- non-vacuity of `desugar_equiv_partial`: the diamond program `exProg` (its inherited post-condition uses
 `before(self.a)`) satisfies the hypotheses — `programSafe` is a decidable sufficient condition for
 `LayersOk` — and no interface of it declares a default implementation. -/
